@@ -28,10 +28,12 @@ QUICK_PICK = 20         # old signatures of the 3-name alphabet sampled in the q
 N3 = 2290               # number of legal signatures over {a, b, c}, <= 3 parameters (asserted)
 N2 = 157
 BOTH = ("visit", "inplace")
+N4 = 546                # signatures of the 4-name family (kinds po/pk, names in alphabet order, <= 4 parameters)
+QUICK_PICK4 = 40        # old signatures of that family sampled in the quick tier
 
 
-def run_tlc(cfg: str, nn: int, old: str, pick=(), emit=True, workers=4, dump_trace=False, timeout=1500, routes=("visit",)):
-    consts = dict(L.kind_sets(), ROUTES="{" + ", ".join('"%s"' % r for r in routes) + "}", NNAMES=nn, OLD=old, PICK="{" + ", ".join(str(i) for i in sorted(pick)) + "}", EMIT="TRUE" if emit else "FALSE")
+def run_tlc(cfg: str, nn: int, old: str, pick=(), emit=True, workers=4, dump_trace=False, timeout=1500, routes=("visit",), kinds=("po", "pk", "vp", "ko", "vk"), sorted_names=False):
+    consts = dict(L.kind_sets(), KINDS="{" + ", ".join('"%s"' % k for k in kinds) + "}", SORTED="TRUE" if sorted_names else "FALSE", ROUTES="{" + ", ".join('"%s"' % r for r in routes) + "}", NNAMES=nn, OLD=old, PICK="{" + ", ".join(str(i) for i in sorted(pick)) + "}", EMIT="TRUE" if emit else "FALSE")
     return tlc.run("DiffSig", cfg, workers=workers, constants=consts, dump_trace=dump_trace, timeout=timeout, heap="3g")
 
 
@@ -250,11 +252,15 @@ def main(tier: str, replay: str | None = None):
         jobs["three"] = lambda: run_tlc("DiffSig_check.cfg", 3, "pick", pick, workers=4)
     else:
         jobs["three"] = lambda: run_tlc("DiffSig_check.cfg", 3, "canon", workers=12, timeout=3000)
-    with ThreadPoolExecutor(max_workers=3) as ex:
+    # 4-name family: positional kinds only, names in alphabet order (546 signatures: `a, /, b, c=d1, d=d2` ...)
+    pick4 = rnd.sample(range(1, N4 + 1), QUICK_PICK4) if tier == "quick" else ()
+    four_args = dict(nn=4, old="pick" if tier == "quick" else "all", pick=pick4, kinds=("po", "pk"), sorted_names=True)
+    jobs["four"] = lambda: run_tlc("DiffSig_check.cfg", workers=4 if tier == "quick" else 8, timeout=3000, **four_args)
+    with ThreadPoolExecutor(max_workers=4) as ex:
         futs = {k: ex.submit(f) for k, f in jobs.items()}
         res = {k: f.result() for k, f in futs.items()}
     run.extra["timing"] = {"tlc_wall_s": {k: round(r.wall_s, 1) for k, r in res.items()}}
-    for k in ("two", "three"):
+    for k in ("two", "three", "four"):
         r = res[k]
         if r.violated:
             # the model of the (possibly changed) implementation breaks a clause: enumerate without invariants,
@@ -263,7 +269,10 @@ def main(tier: str, replay: str | None = None):
             run.add_tlc(r)
             nn = 2 if k == "two" else 3
             old = "all" if k == "two" else ("pick" if tier == "quick" else "canon")
-            res[k] = run_tlc("DiffSig_gen.cfg", nn, old, pick if (k == "three" and tier == "quick") else (), workers=8, timeout=3000, routes=BOTH if k == "two" else ("visit",))
+            if k == "four":
+                res[k] = run_tlc("DiffSig_gen.cfg", workers=8, timeout=3000, **four_args)
+            else:
+                res[k] = run_tlc("DiffSig_gen.cfg", nn, old, pick if (k == "three" and tier == "quick") else (), workers=8, timeout=3000, routes=BOTH if k == "two" else ("visit",))
         tlc.must(res[k])
         run.add_tlc(res[k])
     tlc.must(res["defect"], allow_violations=True)
@@ -284,6 +293,11 @@ def main(tier: str, replay: str | None = None):
         die(f"C10: expected {want3} pairs over the 3-name alphabet, TLC enumerated {len(three.exp)}")
     check_vacuity(two, "2 names")
     check_vacuity(three, "3 names")
+    four = Table(res["four"], 4)
+    want4 = (QUICK_PICK4 if tier == "quick" else N4) * N4
+    if len(four.sig) != N4 or len(four.exp) != want4:
+        die(f"C10: 4-name family: {len(four.sig)} signatures / {len(four.exp)} pairs, expected {N4} / {want4}")
+    validate_reference(run, four)
     validate_reference(run, two)
     validate_reference(run, three)
     confirm_defect_trace(run, griffe, res["defect"], 2)
@@ -298,5 +312,6 @@ def main(tier: str, replay: str | None = None):
     else:
         replay_pairs(run, griffe, three, three.sig.keys(), procs=10)
         run.exhaustive = True
+    replay_pairs(run, griffe, four, sorted({o for o, _ in four.exp}), procs=1 if tier == "quick" else 8)
     run.extra["timing"]["real_replay_s"] = round(time.time() - t_py, 1)
     run.finish()
